@@ -59,7 +59,12 @@ def shallow_files():
                                                           os.path.join(pdir, "ecdsa", "curves.py")}
 
 
-def run_conc(make_bodies, preempt, choices, with_ecdsa=False, first=None, max_steps=60_000_000):
+def plugin_files():
+    """only the adapter layer between bec2format and the crypto libraries (the registered plug-in)"""
+    return {os.path.join(os.path.dirname(env.plugin.__file__), "__init__.py")}
+
+
+def run_conc(make_bodies, preempt, choices, with_ecdsa=False, first=None, max_steps=60_000_000, shallow=None):
     """make_bodies(sched) -> list of zero-argument callables on FRESH objects.
     Returns (dry, conc, resolved pre-emptions): the same programs run one after another, then interleaved."""
     configure(with_ecdsa)
@@ -72,7 +77,7 @@ def run_conc(make_bodies, preempt, choices, with_ecdsa=False, first=None, max_st
         return s
     env.restore_registry()
     dry = build([], [])
-    dry.shallow_files = shallow_files()
+    dry.shallow_files = shallow_files() if shallow is None else shallow
     dry.run(first=0)
     env.restore_registry()
     pre = resolve(preempt, max(dry.step, 1), dry)
